@@ -37,7 +37,22 @@ func runC02(r *Report) {
 	lt := lifetimeOf(r, "R1")
 	dummy := 0
 	n := 0
-	for _, f := range []*ssa.Function{read, treq} {
+	// Reader.Read and Torrent.Request, with the private helpers factored out of them (Reader.wait)
+	unit := []*ssa.Function{read, treq}
+	var readUnit []*ssa.Function
+	readUnit = append(readUnit, read)
+	for _, f := range p.SrcFuncs() {
+		if relPkg(f) != "tor" || f.Parent() != nil || f == read || f == treq {
+			continue
+		}
+		if p.inUnitOf(f, read) {
+			unit = append(unit, f)
+			readUnit = append(readUnit, f)
+		} else if p.inUnitOf(f, treq) {
+			unit = append(unit, f)
+		}
+	}
+	for _, f := range unit {
 		r.Fn(f)
 		for _, op := range chanOpsIn(f) {
 			n++
@@ -47,7 +62,11 @@ func runC02(r *Report) {
 	r.Sentinel("R1", n, 3)
 	// the piece wait also watches the reader's context
 	ctxOK := false
-	for _, op := range chanOpsIn(read) {
+	var readOps []chanOp
+	for _, f := range readUnit {
+		readOps = append(readOps, chanOpsIn(f)...)
+	}
+	for _, op := range readOps {
 		if op.Kind != opSelect {
 			continue
 		}
